@@ -1,3 +1,320 @@
+(* C18 — input parameters always hold a valid value, addressable by their
+   dotted key.  Property-level theorems only; each is closed by [exact] of a
+   lemma proved in Params/Proofs.v and followed by Print Assumptions.
+
+   Vocabulary (Params/Model.v): a tree of parameters is a [param]
+   ([Leaf hdr read_only constraint default value] or [Map hdr children]);
+   [step repaired] transcribes set_value / add / remove / get of
+   parameters.py and set_parameter / get_parameter of model.py as they are in
+   /repo now; [run] folds it over an operation list starting from the root map
+   a DSOLModel creates ([init]); [valid_for c v] is the declared type / bounds /
+   option list / quantity type of each class; identities ([h_id]) are creation
+   stamps, so they order parameters by insertion. *)
+From Coq Require Import ZArith QArith List Bool String Ascii Sorted Permutation.
 From PV Require Import Params.Model Params.Proofs.
-Theorem C18_stub : True. Proof. exact stub_true. Qed.
-Print Assumptions C18_stub.
+Import ListNotations.
+Local Open Scope list_scope.
+
+(* ------------------------------------------------------------------ clause 1
+   "for every sequence of set-value attempts (and adds, removes, gets,
+   constructions that may fail, model-level sets / gets) a parameter's value
+   always satisfies its declared type, bounds, option list or quantity type" *)
+Theorem C18_value_always_valid :
+  forall ops p, In p (nodes (st_root (run repaired init ops))) -> leaf_ok p.
+Proof. exact value_always_valid. Qed.
+Print Assumptions C18_value_always_valid.
+
+(* the same from any well-formed state, e.g. a tree built earlier *)
+Theorem C18_value_always_valid_from :
+  forall st ops p, wf_state st -> In p (nodes (st_root (run repaired st ops))) -> leaf_ok p.
+Proof. exact value_always_valid_from. Qed.
+Print Assumptions C18_value_always_valid_from.
+
+(* set_value accepts exactly the valid values of a writable parameter: what is
+   accepted is valid, and every invalid value (wrong type, out of bounds, not
+   an option, wrong quantity type, NaN) and every value for a read-only
+   parameter is refused *)
+Theorem C18_set_value_accepts_exactly_valid :
+  forall ro c v, check_set repaired ro c v = None <-> (ro = false /\ valid_for c v = true).
+Proof. exact check_set_repaired. Qed.
+Print Assumptions C18_set_value_accepts_exactly_valid.
+
+Theorem C18_set_value_decides :
+  forall h ro c d v0 v,
+    (ro = false /\ valid_for c v = true -> set_value repaired v (Leaf h ro c d v0) = Val (Leaf h ro c d v)) /\
+    (~ (ro = false /\ valid_for c v = true) -> exists e, set_value repaired v (Leaf h ro c d v0) = Raise e).
+Proof. exact set_value_decides. Qed.
+Print Assumptions C18_set_value_decides.
+
+(* ------------------------------------------------------------------ clause 2
+   "a rejected attempt leaves the value unchanged" — every operation that
+   raises leaves the whole tree as it was *)
+Theorem C18_rejected_unchanged :
+  forall st o e, snd (step repaired st o) = ORaise e -> st_root (fst (step repaired st o)) = st_root st.
+Proof. exact rejected_unchanged. Qed.
+Print Assumptions C18_rejected_unchanged.
+
+(* ------------------------------------------------------------------ clauses 3, 4
+   "read-only parameters never change, and the default value never changes":
+   a parameter present after ops1 ++ ops2 that was created during ops1 was
+   present after ops1 with the same header, read-only flag, constraint and
+   default ... *)
+Theorem C18_default_never_changes :
+  forall ops1 ops2 h ro c d v',
+    let st1 := run repaired init ops1 in
+    In (Leaf h ro c d v') (nodes (st_root (run repaired st1 ops2))) -> (h_id h < st_next st1)%nat ->
+    exists v, In (Leaf h ro c d v) (nodes (st_root st1)).
+Proof. exact default_never_changes. Qed.
+Print Assumptions C18_default_never_changes.
+
+(* ... and, when read-only, with the same value ... *)
+Theorem C18_read_only_never_changes :
+  forall ops1 ops2 h c d v',
+    let st1 := run repaired init ops1 in
+    In (Leaf h true c d v') (nodes (st_root (run repaired st1 ops2))) -> (h_id h < st_next st1)%nat ->
+    In (Leaf h true c d v') (nodes (st_root st1)).
+Proof. exact read_only_never_changes. Qed.
+Print Assumptions C18_read_only_never_changes.
+
+(* ... so a read-only parameter holds its default value for ever *)
+Theorem C18_read_only_value_is_default :
+  forall ops h c d v, In (Leaf h true c d v) (nodes (st_root (run repaired init ops))) -> v = d.
+Proof. exact read_only_value_is_default. Qed.
+Print Assumptions C18_read_only_value_is_default.
+
+(* general form, from any state *)
+Theorem C18_leaf_history :
+  forall ops st h ro c d v',
+    In (Leaf h ro c d v') (nodes (st_root (run repaired st ops))) -> (h_id h < st_next st)%nat ->
+    exists v, In (Leaf h ro c d v) (nodes (st_root st)) /\ (ro = true -> v' = v).
+Proof. exact leaf_history. Qed.
+Print Assumptions C18_leaf_history.
+
+(* ------------------------------------------------------------------ clause 5
+   "within a parameter tree every parameter is retrievable ... by its
+   dot-separated extended key": [ext_keys "" root] lists every parameter with
+   its extended_key(); lookups are relative to the map, so the root's own key
+   is stripped ([rel_key]) *)
+Theorem C18_get_by_extended_key :
+  forall n root ek x,
+    wf n root -> has_dot (pkey root) = false ->
+    In (ek, x) (ext_keys EmptyString root) -> ek <> pkey root ->
+    get root (rel_key ek) = Val x.
+Proof. exact get_by_extended_key. Qed.
+Print Assumptions C18_get_by_extended_key.
+
+(* the recursion of get / remove (parts[0], then the text after the first '.')
+   visits exactly the segments the model walks *)
+Theorem C18_path_splitting :
+  (forall key, has_dot key = true -> segments key = before_dot key :: segments (after_dot key)) /\
+  (forall key, has_dot key = false -> segments key = [key]).
+Proof. exact (conj segments_first_rest segments_nodot). Qed.
+Print Assumptions C18_path_splitting.
+
+(* "... and removable": remove(extended key) hands back exactly that
+   parameter, the key no longer resolves, keys that do not extend it resolve
+   as before, the tree stays well-formed *)
+Theorem C18_remove_by_extended_key :
+  forall n root ek x,
+    wf n root -> has_dot (pkey root) = false ->
+    In (ek, x) (ext_keys EmptyString root) -> ek <> pkey root ->
+    exists root',
+      step_root repaired n root (ORemove (rel_key ek)) = (root', OParam (pid x)) /\
+      get root' (rel_key ek) = Raise KeyError /\ wf n root' /\
+      forall key', is_prefix (segments (rel_key ek)) (segments key') = false ->
+                   option_map shallow (node_at root' (segments key')) =
+                   option_map shallow (node_at root (segments key')).
+Proof. exact remove_by_extended_key. Qed.
+Print Assumptions C18_remove_by_extended_key.
+
+(* ------------------------------------------------------------------ clause 6
+   "duplicate keys are refused" (both ways of adding; tree unchanged) *)
+Theorem C18_duplicate_refused :
+  forall n root pp s h ch,
+    node_at root (psegs pp) = Some (Map h ch) -> In (s_key s) (map pkey ch) ->
+    (exists e, step_root repaired n root (OAddCtor pp s) = (root, ORaise e) /\
+               (ctor_checks repaired s (Some (Map h ch)) = None -> e = ValueError)) /\
+    (exists e, step_root repaired n root (OAddMeth pp s) = (root, ORaise e) /\
+               (ctor_checks repaired s None = None -> e = ValueError)).
+Proof. exact duplicate_refused. Qed.
+Print Assumptions C18_duplicate_refused.
+
+(* ------------------------------------------------------------------ clause 7
+   "children are listed in order of display priority with ties in insertion
+   order": in every reachable tree, every map *)
+Theorem C18_children_sorted :
+  forall ops h ch,
+    In (Map h ch) (nodes (st_root (run repaired init ops))) ->
+    StronglySorted hord_lt (map phdr ch) /\ NoDup (map pkey ch) /\ Forall key_ok (map pkey ch).
+Proof. exact children_sorted. Qed.
+Print Assumptions C18_children_sorted.
+
+(* one add: the new child goes behind all children of priority <= its own,
+   the others keep their places *)
+Theorem C18_add_is_stable_insertion :
+  forall p h ch x',
+    StronglySorted prio_le ch -> map_add p (Map h ch) = Val x' ->
+    exists l1 l2, ch = l1 ++ l2 /\ x' = Map h (l1 ++ p :: l2) /\
+                  Forall (fun y => (pprio y <= pprio p)%Q) l1 /\ Forall (fun y => (pprio p < pprio y)%Q) l2.
+Proof. exact add_is_stable_insertion. Qed.
+Print Assumptions C18_add_is_stable_insertion.
+
+(* the sort add() applies is a stable sort *)
+Theorem C18_sort_is_stable :
+  forall l,
+    Permutation (py_sorted l) l /\ StronglySorted prio_le (py_sorted l) /\
+    forall q, filter (same_prio q) (py_sorted l) = filter (same_prio q) l.
+Proof. exact py_sorted_is_stable_sort. Qed.
+Print Assumptions C18_sort_is_stable.
+
+(* ------------------------------------------------------------------ clause 8
+   "setting a parameter through the model followed by getting it returns the
+   value that was set" *)
+Theorem C18_model_set_get_roundtrip :
+  forall n m root path v root',
+    step_root repaired n root (OModelSet path v) = (root', ONone) ->
+    step_root repaired m root' (OModelGet path) = (root', OValue v).
+Proof. exact model_set_get_roundtrip. Qed.
+Print Assumptions C18_model_set_get_roundtrip.
+
+(* set_parameter does return normally for every valid value of a writable
+   parameter under an existing key *)
+Theorem C18_model_set_accepts_valid :
+  forall n root path h c d v0 v,
+    node_at root (segments path) = Some (Leaf h false c d v0) -> valid_for c v = true ->
+    exists root', step_root repaired n root (OModelSet path v) = (root', ONone).
+Proof. exact model_set_accepts_valid. Qed.
+Print Assumptions C18_model_set_accepts_valid.
+
+(* ------------------------------------------------------------------ clause 9
+   a construction (with parent=...) that raises registers nothing *)
+Theorem C18_failed_construction_not_registered :
+  forall n root pp s e,
+    snd (step_root repaired n root (OAddCtor pp s)) = ORaise e ->
+    fst (step_root repaired n root (OAddCtor pp s)) = root.
+Proof. exact failed_construction_not_registered. Qed.
+Print Assumptions C18_failed_construction_not_registered.
+
+(* ------------------------------------------------------------------ the snapshot 13808df
+   On the pinned snapshot three clauses were false ([step pinned] transcribes
+   that code; each witness was replayed on it).  /repo has been repaired since
+   (67d3f71, bc11b41, a3d4ad7); the check runs [repaired]. *)
+Theorem C18_pinned_read_only_str_refuted :
+  exists ops h c d v,
+    In (Leaf h true c d v) (nodes (st_root (run pinned init ops))) /\ v <> d.
+Proof. exact pinned_read_only_str_changes. Qed.
+Print Assumptions C18_pinned_read_only_str_refuted.
+
+Theorem C18_pinned_model_set_refuted :
+  exists n root path v h c d v0,
+    node_at root (segments path) = Some (Leaf h false c d v0) /\ valid_for c v = true /\
+    step_root pinned n root (OModelSet path v) = (root, ORaise AttributeError).
+Proof. exact pinned_model_set_raises. Qed.
+Print Assumptions C18_pinned_model_set_refuted.
+
+Theorem C18_pinned_failed_construction_refuted :
+  exists n root pp s e,
+    snd (step_root pinned n root (OAddCtor pp s)) = ORaise e /\
+    fst (step_root pinned n root (OAddCtor pp s)) <> root /\
+    exists p, In p (nodes (fst (step_root pinned n root (OAddCtor pp s)))) /\ ~ leaf_ok p.
+Proof. exact pinned_failed_construction_registered. Qed.
+Print Assumptions C18_pinned_failed_construction_refuted.
+
+(* ------------------------------------------------------------------ non-vacuity
+   One concrete history through all eight classes: depth 3, equal priorities,
+   a read-only parameter, accepted and rejected attempts. *)
+Local Open Scope string_scope.
+Definition len_units : list string := ["m"; "km"; "mm"].
+
+Definition ex_ops : list op :=
+  [ OAddCtor None (mkSpec "n" 2 false (SInt (NI 0) (NI 10)) (VInt 5));                 (* 1 *)
+    OAddMeth None (mkSpec "sub" 1 true SMap VNone);                                     (* 2 *)
+    OAddCtor (Some "sub") (mkSpec "x" 1 false (SFloat (NF FNInf) (NF FPInf)) (VFloat (FFin 1.5)));  (* 3 *)
+    OAddCtor (Some "sub") (mkSpec "deep" 1 true SMap VNone);                            (* 4: same priority as x *)
+    OAddCtor (Some "sub.deep") (mkSpec "s" 1 true SStr (VStr "fixed"));                 (* 5: read-only *)
+    OAddCtor (Some "sub.deep") (mkSpec "b" (1#2) false SBool (VBool true));             (* 6: sorts before s *)
+    OAddCtor (Some "sub") (mkSpec "q" 1 false (SQty (NI 0) (NI 100)) (VQty 0 (FFin 2) "m"));  (* 7 *)
+    OAddMeth (Some "sub") (mkSpec "sel" 3 false (SSel ["CA"; "MD"]) (VStr "CA"));       (* 8 *)
+    OAddCtor None (mkSpec "u" 2 false (SUnit 0 len_units) (VStr "km"));                 (* 9: ties with n, goes after it *)
+    OSet "n" (VInt 7);                                                                  (* accepted *)
+    OSet "n" (VInt 11);                                                                 (* out of bounds *)
+    OSet "n" (VFloat (FFin 3));                                                         (* wrong type *)
+    OSet "sub.x" (VFloat FNaN);                                                         (* NaN *)
+    OSet "sub.q" (VQty 1 (FFin 2) "s");                                                 (* wrong quantity type *)
+    OSet "sub.sel" (VStr "AZ");                                                         (* not an option *)
+    OSet "sub.deep.s" (VStr "other");                                                   (* read-only *)
+    OModelSet "sub.deep.b" (VBool false);                                               (* accepted *)
+    OAddCtor None (mkSpec "n" 9 false SStr (VStr "dup"));                               (* duplicate *)
+    OAddCtor None (mkSpec "bad" 1 false (SInt (NI 0) (NI 10)) (VInt 50)) ].             (* failing construction *)
+
+Definition ex_state : state := run repaired init ex_ops.
+
+Example ex_tree_keys :
+  map fst (ext_keys "" (st_root ex_state)) =
+  ["root"; "root.sub"; "root.sub.x"; "root.sub.deep"; "root.sub.deep.b"; "root.sub.deep.s";
+   "root.sub.q"; "root.sub.sel"; "root.n"; "root.u"].
+Proof. vm_compute. reflexivity. Qed.
+
+Example ex_values :
+  map (fun e => snd (fst (entry_of e))) (ext_keys "" (st_root ex_state)) =
+  [None; None; Some (VFloat (FFin 1.5)); None; Some (VBool false); Some (VStr "fixed");
+   Some (VQty 0 (FFin 2) "m"); Some (VStr "CA"); Some (VInt 7); Some (VStr "km")].
+Proof. vm_compute. reflexivity. Qed.
+
+(* the outcomes of the nineteen operations: accepted ones return None, the
+   others raise the documented exception *)
+Fixpoint outs (st : state) (ops : list op) : list out :=
+  match ops with [] => [] | o :: r => snd (step repaired st o) :: outs (fst (step repaired st o)) r end.
+
+Example ex_outcomes :
+  outs init ex_ops =
+  [ONone; ONone; ONone; ONone; ONone; ONone; ONone; ONone; ONone;
+   ONone; ORaise ValueError; ORaise TypeError; ORaise ValueError; ORaise ValueError; ORaise ValueError;
+   ORaise ValueError; ONone; ORaise ValueError; ORaise ValueError].
+Proof. vm_compute. reflexivity. Qed.
+
+(* hypotheses of the implications are met by this state *)
+Example ex_rejected_hyp :
+  snd (step repaired ex_state (OSet "sub.x" (VStr "no"))) = ORaise TypeError.
+Proof. vm_compute. reflexivity. Qed.
+
+Example ex_wf : wf_state ex_state.
+Proof. exact (run_wf ex_ops init init_wf). Qed.
+
+Example ex_history_hyp :
+  exists h c d v, In (Leaf h true c d v) (nodes (st_root ex_state)) /\ (h_id h < st_next ex_state)%nat.
+Proof.
+  exists (mkHdr 5 "s" 1), CStr, (VStr "fixed"), (VStr "fixed"). split; [vm_compute; tauto | vm_compute; repeat constructor].
+Qed.
+
+Example ex_extended_key_hyp :
+  has_dot (pkey (st_root ex_state)) = false /\
+  exists x, In ("root.sub.deep.b", x) (ext_keys "" (st_root ex_state)) /\ "root.sub.deep.b" <> pkey (st_root ex_state) /\
+            rel_key "root.sub.deep.b" = "sub.deep.b" /\ pid x = 6%nat.
+Proof.
+  split; [reflexivity|].
+  exists (Leaf (mkHdr 6 "b" (1#2)) false CBool (VBool true) (VBool false)).
+  repeat split; [vm_compute; tauto | discriminate].
+Qed.
+
+Example ex_duplicate_hyp :
+  exists h ch, node_at (st_root ex_state) (psegs (Some "sub.deep")) = Some (Map h ch) /\ In "s" (map pkey ch).
+Proof. eexists. eexists. split; [vm_compute; reflexivity | vm_compute; tauto]. Qed.
+
+Example ex_roundtrip_hyp :
+  exists root', step_root repaired 20 (st_root ex_state) (OModelSet "sub.q" (VQty 0 (FFin 50) "km")) = (root', ONone).
+Proof. eexists. vm_compute. reflexivity. Qed.
+
+Example ex_failed_construction_hyp :
+  snd (step_root repaired 20 (st_root ex_state) (OAddCtor (Some "sub") (mkSpec "z" 1 false SBool (VInt 1)))) = ORaise TypeError.
+Proof. vm_compute. reflexivity. Qed.
+
+Example ex_stable_insertion_hyp :
+  exists h ch x', node_at (st_root ex_state) [] = Some (Map h ch) /\ StronglySorted prio_le ch /\
+                  map_add (node_of 20 (mkSpec "t" 2 false SBool (VBool true))) (Map h ch) = Val x' /\
+                  match x' with Map _ ch' => map pkey ch' = ["sub"; "n"; "u"; "t"] | _ => False end.
+Proof.
+  eexists. eexists. eexists. split; [vm_compute; reflexivity|].
+  split; [repeat (constructor; try (vm_compute; discriminate))|].
+  split; vm_compute; reflexivity.
+Qed.
